@@ -6,7 +6,14 @@ text and JSON rendering, `random.random` injected) against the model `Rbacx.Reda
 `applySpecs` / `log`; the spec predicates of `lean/Rbacx/Spec/Redact.lean` (no-leak, placeholder-at-path,
 priority, sampling, size bound) are evaluated by the Lean driver on the implementation's emitted record.
 Harness-side (Python) parts of the spec: the caller's object is deep-compared before/after, `in_place`
-returns the very payload object, `log` never raises, and planted secrets are searched in the *raw* message."""
+returns the very payload object, `log` never raises, and planted secrets are searched in the *raw* message.
+
+Tie by regeneration: `_ensure_list_size`, `_set_by_path`, `apply_obligations` are translated from the current source text into
+`Rbacx.Generated.Src.*` by the CURSOR translation (`harness/pytolean_cursor.py`, plugin `extractors/src_translation_enforcer.py`: one
+state, the cursor `cur` an access path into it, every store a functional update, every operation that can raise `Option`-valued); the
+per-run obligation `Run/C19_translated.lean` proves the translation equal to the model's `setByPath` / `applySpecs` — in particular
+that no subscript of the source raises on any tree — and the translation is evaluated against the real functions
+(`translated_vs_python`)."""
 from __future__ import annotations
 
 import ast
@@ -888,6 +895,86 @@ def anchored_coverage(cases: list[dict]) -> dict:
     return res
 
 
+
+# ----------------------------------------------------------------------------- the translated enforcer vs the real one
+
+
+def translated_jobs(run: lib.Run):
+    """(function, args) for the translated-source comparison: the exhaustive `_set_by_path` grid of the correspondence check, seeded
+    random trees with paths derived from them (`gen_paths`, garbage included), every garbage path on a list-bearing tree, and spec lists
+    (`gen_specs`, malformed ones too) through `apply_obligations` with and without `in_place`"""
+    quick = run.tier == "quick"
+    for c in setpath_cases(True):
+        yield "_set_by_path", [c["obj"], c["path"], c["value"]]
+    r = random.Random(run.seed * 7919 + 1919)
+    for k in ("a", "b", "items"):
+        for g in garbage_paths(random.Random(0), [k]):
+            for obj in ({}, {k: []}, {k: [{"b": [1]}, 2]}, {k: {"b": 1}}, [k], None):
+                yield "_set_by_path", [obj, g, "***"]
+    for _ in range((1500 if quick else 15000) * run.boost):
+        pl = Planter(r.randrange(0, 50))
+        env = gen_env(r, pl) if r.random() < 0.8 else gen_tree(r, 3, pl)
+        paths, _ = gen_paths(r, env, r.randrange(1, 5))
+        for p in paths:
+            yield "_set_by_path", [env, p, r.choice(PLACEHOLDERS)]
+        if r.random() < 0.6:
+            specs = gen_specs(r, paths, malformed=r.random() < 0.1)
+            yield "apply_obligations", [env, specs if specs or r.random() < 0.7 else None, r.random() < 0.4]
+    for c in itertools.islice(redact_pair_cases(), 0, None, 7 if quick else 1):
+        yield "apply_obligations", [c["env"], c["specs"], c["in_place"]]
+
+
+def translated_vs_python(run: lib.Run) -> tuple[bool, str]:
+    """the translated enforcer (Generated.Src.set_by_path / apply_obligations, evaluated by `lake env lean --run
+    Rbacx/Run/SrcEvalEnforcer.lean`) against the real `_set_by_path` (on a deep copy; compared is what the caller's object looks like
+    afterwards, dict key order included) and `apply_obligations` (the returned payload).  For `_set_by_path` an escaping exception is
+    compared too (the translation tracks them); a raising `apply_obligations` (malformed specs: outside the total reading) is not judged.
+    Validates the translator harness/pytolean_cursor.py and Model/PyCursor.lean, the two things the obligation C19_translated trusts."""
+    import subprocess
+    calls = []
+    for fn, args in translated_jobs(run):
+        a = copy.deepcopy(args)
+        try:
+            if fn == "_set_by_path":
+                enforcer._set_by_path(a[0], a[1], a[2])
+                want = ("ok", a[0])
+            else:
+                want = ("ok", enforcer.apply_obligations(a[0], a[1], in_place=a[2]))
+        except Exception as e:  # noqa: BLE001
+            want = ("raised", type(e).__name__)
+        calls.append((fn, args, want))
+    lines = [json.dumps({"fn": fn, "args": [proto.enc(x) for x in args]}) for fn, args, _ in calls]
+    p = subprocess.run(["lake", "env", "lean", "--run", "Rbacx/Run/SrcEvalEnforcer.lean"], cwd=lib.LEAN, input="\n".join(lines) + "\n",
+                       capture_output=True, text=True, timeout=900)
+    outs = [ln for ln in p.stdout.split("\n") if ln]
+    if p.returncode != 0 or len(outs) != len(lines):
+        return False, "SrcEvalEnforcer: " + (p.stderr or p.stdout)[-800:]
+    bad = 0
+    for (fn, args, want), ln in zip(calls, outs):
+        got = json.loads(ln)
+        if "error" in got:
+            return False, f"SrcEvalEnforcer: {ln[:300]}"
+        run.count("translated-enforcer")
+        if want[0] != "ok" and fn == "apply_obligations":
+            run.count("translated-enforcer: apply_obligations raised in python (not judged)")
+            continue
+        if want[0] == "ok":
+            changed = proto.canon(want[1]) != proto.canon(args[0])
+            run.count(f"translated-enforcer: {fn} " + ("changed the tree" if changed else "no-op"))
+            same = "value" in got and json.dumps(got["value"], separators=(",", ":")) == proto.canon(want[1])
+        else:
+            run.count(f"translated-enforcer: {fn} raised")
+            same = bool(got.get("raised"))
+        if not same:
+            bad += 1
+            if bad == 1:
+                run.disagreements.append({"part": "translated source vs python", "function": fn, "args": args,
+                                          "impl": {"python": want[1]}, "model": got,
+                                          "what": f"the translated {fn} (Generated.Src, cursor translation) and the real function differ"})
+    run.evaluations += len(calls)
+    return bad == 0, f"{bad} of {len(calls)} evaluations differ" if bad else f"agree on {len(calls)} evaluations"
+
+
 # ----------------------------------------------------------------------------- check / replay
 
 
@@ -1018,11 +1105,25 @@ def check(run: lib.Run, audit: dict) -> int:
         raise lib.CheckError(f"Lean build/audit failed at {audit['stage']}: {audit.get('log') or audit.get('forbidden') or audit.get('bad_axioms')}")
     defaults = copy.deepcopy(dl._DEFAULT_REDACTIONS)
     run.extra["default_redactions_read_from_module"] = defaults
+    # the enforcer as it is written NOW, translated into Lean (cursor = access path into one state), is proved equal to the model's
+    tr = audit["facts"].get("translated_enforcer")
+    untranslatable = isinstance(tr, dict) and "extraction_failed" in tr
+    ok_tr, detail_tr = lib.run_obligation("C19_translated")
+    run.obligation("C19_translated: Generated.Src.set_by_path / Src.apply_obligations (the current source text of the redaction enforcer, "
+                   "cursor translation) = some (the model's setByPath / applySpecs), for every tree, path string, value and well-formed spec list "
+                   "— no subscript of the source raises", ok_tr,
+                   "discharged" if ok_tr else (str(tr["extraction_failed"]) if untranslatable else detail_tr))
+    if untranslatable or not isinstance(tr, dict):
+        ok_py, detail_py = True, "skipped: the enforcer is not in the translatable subset (see C19_translated)"
+    else:
+        ok_py, detail_py = translated_vs_python(run)
+    run.obligation("translated enforcer evaluates like the real _set_by_path / apply_obligations (translator + Model/PyCursor.lean vs CPython)",
+                   ok_py, detail_py)
     keep: list[dict] = []
     run_cases(run, defaults, keep=keep)
     overlapping_records(run)
-    if run.disagreements and not run.spec_failures:
-        run_cases(run, defaults, scale=5)   # correspondence broke: widen the search for a failing input
+    if (run.disagreements or not ok_tr) and not run.spec_failures:
+        run_cases(run, defaults, scale=5)   # correspondence / the translation tie broke: widen the search for a failing input
     try:
         run.extra["anchored_line_coverage"] = anchored_coverage(keep)
     except Exception as e:  # noqa: BLE001
@@ -1043,10 +1144,19 @@ def check(run: lib.Run, audit: dict) -> int:
             "failures": fails or first["failures"], "case": small, "impl": {k: v for k, v in out.items() if k != "caller_after"} | {"caller_after": out.get("caller_after")},
             "unshrunk": first["case"], "more": len(run.spec_failures) - 1})
         violations.append((path, True))
-    elif run.disagreements:
-        first = run.disagreements[0]
+    elif not ok_tr:
+        path = run.write_replay("obligation", {
+            "what": "per-run obligation Rbacx/Run/C19_translated.lean no longer checks: the translated source of _set_by_path / "
+                    "apply_obligations is not proved equal to the model's setByPath / applySpecs, the functions theorems Rbacx.C19.* are "
+                    "about; the widened search found no payload, path and spec list on which the redaction spec is violated",
+            "translation": tr, "lean": detail_tr[-1500:], "first_disagreement": run.disagreements[:1]})
+        violations.append((path, False))
+    elif run.disagreements or not ok_py:
+        first = run.disagreements[0] if run.disagreements else {"part": "translated source vs python", "what": detail_py}
         path = run.write_replay("correspondence", {
-            "what": "model (Rbacx.Redact.setByPath / applySpecs / log) and implementation disagree on the emitted env / dropped flag; "
+            "what": ("translated source vs python: " + str(first.get("what")) + "; the obligation C19_translated rests on a translation that "
+                     "CPython contradicts (or that could not be evaluated)") if first.get("part") == "translated source vs python" else
+                    "model (Rbacx.Redact.setByPath / applySpecs / log) and implementation disagree on the emitted env / dropped flag; "
                     "theorems Rbacx.C19.* no longer speak about this code", "first": first, "count": len(run.disagreements)})
         violations.append((path, False))
     return run.finish(audit, violations)
@@ -1054,6 +1164,23 @@ def check(run: lib.Run, audit: dict) -> int:
 
 def replay(run: lib.Run, audit: dict, path: str) -> int:
     rp = json.load(open(path))
+    f0 = rp.get("first") or (rp.get("first_disagreement") or [None])[0] or {}
+    if f0.get("part") == "translated source vs python":
+        a = copy.deepcopy(f0["args"])
+        try:
+            if f0["function"] == "_set_by_path":
+                enforcer._set_by_path(a[0], a[1], a[2])
+                now = a[0]
+            else:
+                now = enforcer.apply_obligations(a[0], a[1], in_place=a[2])
+        except Exception as e:  # noqa: BLE001
+            now = f"raised {type(e).__name__}"
+        print(f0["function"], "now:", json.dumps(now, default=str)[:1500], "recorded:", json.dumps(f0.get("impl"), default=str)[:1500],
+              "translated:", json.dumps(f0.get("model"), default=str)[:1500])
+        return 1
+    if "case" not in rp and "first" not in rp:
+        print("recorded:", json.dumps(rp, default=str)[:2000])
+        return 1
     c = rp.get("case") or rp["first"]["case"]
     if c.get("part") == "overlapping records":
         overlapping_records(run)
